@@ -159,6 +159,18 @@ Obs_C05_DupAnswered ==
         => (oE.res = "ok" /\ oE.arrived = <<>> /\ oD.rlog = oP.rlog /\ oD.final = oP.final
             /\ oD.full[n] = Nil /\ oD.waitf[n] = Nil /\ oD.part[n] = Nil /\ oD.cmp[n] = NoCmp)
 
+\* a part of a version that is delivered and logged is known to the receiver ("did you receive this"
+\* is answered yes), also when the delivery is known only from the log
+Obs_C05_KnownDelivered ==
+  (IsCmd("received") /\ ~oE.crashed) =>
+     LET n == oE.cmd.n
+         v == oE.cmd.v
+     IN (LoggedD(oP, n, v) /\ oP.final[Target(n, Ren[n])] = Good(n, v)
+         /\ oP.part[n] = Nil /\ oP.cmp[n] = NoCmp /\ oP.full[n] = Nil /\ oP.waitf[n] = Nil
+         /\ ~StaleH(oH, n) /\ ~ShadowH(oH, n) /\ ~TaintedH(oH, n)
+         /\ oH.pcache[n].st # "failed")
+        => oE.res = "yes"
+
 \* C09: what Scan lists and what Received confirms is in a staged body
 Obs_C09_Scan ==
   (IsCmd("scan") /\ ~oE.crashed) =>
